@@ -292,6 +292,47 @@ func runC02(r *core.Run) {
 		}
 	}
 	pts := c02QuickPoints(r.Seed)
+	// what the first calls of the process returned is remembered: at the very end the neighbours of
+	// those arguments are encoded again, and monotonicity must hold between an early and a late call
+	// as it does between adjacent ones (an encoder that changes its method after some number of
+	// calls - exact evaluation first, a table later - breaks it only across that switch)
+	type early struct {
+		x float32
+		r int
+	}
+	earlyRes := make([][]early, len(encs))
+	{
+		rg := core.NewRNG(r.Seed, "C02", "early")
+		for i := range encs {
+			for k := 0; k < 3000; k++ {
+				x := float32(rg.Uniform(0, 1))
+				if k%3 == 0 {
+					x = float32(rg.Uniform(0, 0.02))
+				}
+				res, pan := c02Call(&encs[i], x)
+				if pan == nil {
+					earlyRes[i] = append(earlyRes[i], early{x, res})
+				}
+			}
+		}
+	}
+	defer func() {
+		var n int64
+		for i := range encs {
+			e := &encs[i]
+			for _, ev := range earlyRes[i] {
+				up, _ := c02Call(e, math.Nextafter32(ev.x, 2))
+				dn, _ := c02Call(e, math.Nextafter32(ev.x, -1))
+				n += 2
+				if up < ev.r || dn > ev.r {
+					r.Violate("monotone", e.Name+"/monotone/across-history", fmt.Sprintf("%s(%.9g) = %d among the first calls of the process; after %d further calls its float32 neighbours encode to %d (below) and %d (above): the result decreases as x increases", e.Name, ev.x, ev.r, len(pts), dn, up),
+						c02Case{e.Name, math.Float32bits(ev.x), fmt.Sprint(ev.x), 0})
+					break
+				}
+			}
+		}
+		r.AddEvals(n)
+	}()
 	nanPts := []float32{float32(math.NaN()), math.Float32frombits(0x7fc00001), math.Float32frombits(0xffc00000), math.Float32frombits(0x7f800001), math.Float32frombits(0xffffffff)}
 	seen := make([]*c02Seen, len(encs))
 	var mu sync.Mutex
